@@ -106,8 +106,29 @@ class EncoderModel:
             PKT + "::getPayloadLength" in called_names(facts.expand(f, fn_node)) for _, fn_node in
             [(b, f.node(f.cfg.blocks[b]["cond"])) for b, _ in paths.loop_header(f) if f.cfg.blocks[b].get("cond", -1) >= 0]),
             "segmentation loop owner")
-        self.type_setter = method_with(lambda f: any(k == "assign" and PKT + "::getMessageType" in called_names(n)
-                                                     for ff, k, n in self.writes.get(self.msgtype, []) if ff is f), "message-type setter")
+        def takes_packet_type(f):
+            """f assigns the remembered type from the packet's getMessageType() — read in place, or handed in through a parameter that
+            every call site fills from it"""
+            for ff, k, n in self.writes.get(self.msgtype, []):
+                if ff is not f or k != "assign":
+                    continue
+                if PKT + "::getMessageType" in called_names(n):
+                    return True
+                r = strip_all_casts(n["r"])
+                pd = [q["decl"] for q in f.params]
+                if r.get("k") == "ref" and r.get("dk") == "param" and r.get("decl") in pd:
+                    i = pd.index(r["decl"])
+                    sites = [(h, facts.effective_call(c)) for h in self.methods for c in h.calls() if fb.resolve_call(c) is f]
+
+                    def from_packet(h, a):
+                        if PKT + "::getMessageType" in called_names(facts.expand(h, a)):
+                            return True
+                        d = facts.current_definition(h, a) if h.cfg_raw else None
+                        return d is not None and PKT + "::getMessageType" in called_names(d)
+                    if sites and all(len(c.get("args", [])) > i and from_packet(h, c["args"][i]) for h, c in sites):
+                        return True
+            return False
+        self.type_setter = method_with(takes_packet_type, "message-type setter")
         self.fit_checker = method_with(lambda f: (f.raw.get("rett") or {}).get("k") == "bool" and any(
             self.fb.resolve_call(c) is self.opener for c in f.calls()), "fit checker")
         # the flag builder may be a member or a file-local function: whatever the segmentation loop calls that returns a SegmentType
@@ -1588,7 +1609,24 @@ def rule_writes_inside_frame(res, rid, m, placement=False):
     okmin = False
     if len(ldef) == 1:
         e = strip_all_casts(facts.expand(f, ldef[0], keep=(ldecl,)))
+
+        def min_operands(x, depth=0):
+            """operands of a (nested) std::min; a constant cap of 65535 or more cannot bind (the other operand is at most the 16-bit payload length)"""
+            xs = strip_all_casts(x)
+            if xs.get("k") == "ref" and xs.get("dk") == "local" and xs.get("decl") != ldecl and depth < 3:
+                d0 = facts.current_definition(f, xs)  # a named intermediate result that still holds what its initialiser says
+                if d0 is not None:
+                    return min_operands(d0, depth)
+            if xs.get("k") == "call" and callee_name(xs) == "std::min" and depth < 3:
+                out = []
+                for y in xs.get("args", []):
+                    out.extend(min_operands(y, depth + 1))
+                return out
+            if depth and (const_value(xs) or 0) >= 0xFFFF:
+                return []
+            return [x]
         if e.get("k") == "call" and callee_name(e) == "std::min":
+            e = dict(e, args=min_operands(e))
             for a in e.get("args", []):
                 a = strip_all_casts(a)
                 if a.get("k") == "bin" and a.get("op") == "-" and strip_all_casts(a["l"]).get("field") == m.bytesLeft and (const_value(a["r"]) or 0) >= hdr:
